@@ -9,6 +9,7 @@ import (
 	"strconv"
 	"strings"
 	"time"
+	"verif/internal/names"
 
 	"pgregory.net/rapid"
 	"verif/internal/crash"
@@ -29,11 +30,13 @@ type SysCase struct {
 }
 
 type SyscallFault struct {
-	// Path, relative to the database directory: only writes to that file count ("" = any write of the process).
-	Path  string `json:"path,omitempty"`
+	// File: only calls on that file count ("" = any call of the process): "wal" = the N-th log file, "data" / "index" /
+	// "bloom" / "meta" = that file of the N-th flushed table (names taken from the repository's constants).
+	File  string `json:"file,omitempty"`
+	N     int    `json:"n,omitempty"`
 	When  int    `json:"when"`
 	Errno string `json:"errno"` // EIO | ENOSPC
-	// Call: "" = write(2); "read" = read/pread64 (only with Path: table and log files are read back by compactions,
+	// Call: "" = write(2); "read" = read/pread64 (only with File: table and log files are read back by compactions,
 	// recovery and scans); "sync" = fsync/fdatasync.
 	Call string `json:"call,omitempty"`
 }
@@ -50,16 +53,12 @@ func SysGen() *rapid.Generator[Case] {
 			if sf.Call == "read" || rapid.IntRange(0, 3).Draw(t, "targeted") > 0 {
 				// a named file of the n-th flushed table or the n-th write-ahead log file
 				n := rapid.IntRange(0, 4).Draw(t, "n") // log files count from 0, tables from 1
-				files := []string{"data.rio", "index.rio", "bloom.bf.gz", "meta.pb.bin", "wal"}
+				files := []string{"data", "index", "bloom", "meta", "wal"}
 				if sf.Call == "sync" {
 					files = []string{"wal"}
 				}
-				f := rapid.SampledFrom(files).Draw(t, "file")
-				if f == "wal" {
-					sf.Path = fmt.Sprintf("wal/%06d.wal", n)
-				} else {
-					sf.Path = fmt.Sprintf("sstable_%015d/%s", n, f)
-				}
+				sf.File = rapid.SampledFrom(files).Draw(t, "file")
+				sf.N = n
 				sf.When = rapid.IntRange(1, 6).Draw(t, "when")
 			} else if sf.Call == "sync" {
 				sf.When = rapid.IntRange(1, 30).Draw(t, "when")
@@ -105,13 +104,13 @@ func sysProp(c Case, x *h.Ctx) *h.Violation {
 	if sc := c.Sys.Syscall; sc != nil {
 		x.Label("leg=system-syscall-fault")
 		calls := map[string]string{"": "write", "read": "read,pread64", "sync": "fsync,fdatasync"}[sc.Call]
-		if calls == "" || (sc.Call == "read" && sc.Path == "") {
+		if calls == "" || (sc.Call == "read" && sc.File == "") {
 			panic(h.Infra{Msg: "bad syscall fault in case"})
 		}
 		args := []string{"-f", "-qq", "-o", "/dev/null", "-e", "trace=" + calls}
-		if sc.Path != "" {
-			args = append(args, "-P", filepath.Join(root, sc.Path))
-			x.Label("syscall-fault-file=" + filepath.Base(filepath.Dir(sc.Path))[:3] + "/" + filepath.Ext(sc.Path))
+		if sc.File != "" {
+			args = append(args, "-P", filepath.Join(root, sc.path()))
+			x.Label("syscall-fault-file=" + sc.File)
 		}
 		x.Label("syscall-fault-call=" + strings.SplitN(calls, ",", 2)[0])
 		args = append(args, "-e", fmt.Sprintf("inject=%s:error=%s:when=%d", calls, sc.Errno, sc.When), filepath.Join(build, "runner"), pfile, root, ack)
@@ -187,13 +186,10 @@ func sysProp(c Case, x *h.Ctx) *h.Violation {
 	if oerr != nil {
 		return h.V("iofault/system/"+oerr.Phase+"-failed/"+target+"/"+oerr.Class(), "%s; opening the directory afterwards failed in %s: %.600s\nchild output: %.600s", desc, oerr.Phase, oerr.Err, out.String())
 	}
-	if fired && exit == 0 && !opErr {
-		where := "a write"
-		if p.Fault != nil && p.Fault.Pos < 0 {
-			where = "the Close (final flush)"
-		}
-		return h.V("iofault/system/absorbed/"+target, "%s; the injected failure of %s fired, yet no operation returned an error and the process did not stop: the failure was absorbed\nchild output: %.600s", desc, where, out.String())
-	}
+	// A fired fault that neither stopped the child nor surfaced in a client call is not an alarm by itself: the
+	// statement asks that the failing operation (merge / compaction / flush) returns an error, which a background loop
+	// may log and retry. What counts is that the failed output is never served: the content comparison below.
+	handledSilently := fired && exit == 0 && !opErr
 	// Every acknowledged operation must be there. An operation that was in flight when the child stopped, or that
 	// returned an error, may or may not have taken effect (several can exist: strace counts writes per thread, and a
 	// broken log makes every later write fail), so per key the directory must show the last acknowledged operation on
@@ -261,6 +257,9 @@ func sysProp(c Case, x *h.Ctx) *h.Violation {
 	if opErr {
 		x.Label("operation-returned-error")
 	}
+	if handledSilently {
+		x.Label("fault-fired-without-stop-or-client-error")
+	}
 	if sc := c.Sys.Syscall; sc != nil {
 		eff := "none-visible"
 		if exit != 0 {
@@ -277,11 +276,18 @@ func sysProp(c Case, x *h.Ctx) *h.Violation {
 func faultDesc(sc *SysCase) string {
 	if sc.Syscall != nil {
 		call := map[string]string{"": "write(2)", "read": "read(2)/pread64(2)", "sync": "fsync(2)"}[sc.Syscall.Call]
-		if sc.Syscall.Path != "" {
-			return fmt.Sprintf("the %d-th %s on %s (per thread) fails with %s", sc.Syscall.When, call, sc.Syscall.Path, sc.Syscall.Errno)
+		if sc.Syscall.File != "" {
+			return fmt.Sprintf("the %d-th %s on %s (per thread) fails with %s", sc.Syscall.When, call, sc.Syscall.path(), sc.Syscall.Errno)
 		}
 		return fmt.Sprintf("the %d-th %s of a thread of the child fails with %s", sc.Syscall.When, call, sc.Syscall.Errno)
 	}
 	f := sc.Program.Fault
 	return fmt.Sprintf("%s #%d %s writer fails at write %d (sticky=%v)", f.Target, f.Nth, f.Which, f.Pos, f.Sticky)
+}
+
+func (sf *SyscallFault) path() string {
+	if sf.File == "wal" {
+		return names.WalFile(sf.N)
+	}
+	return names.TableFile(sf.N, sf.File)
 }
